@@ -577,7 +577,7 @@ func (e *Engine) callFrameShallow(ci ssa.CallInstruction) frameSet {
 			}
 			return out
 		}
-		if !e.closedWorld(c.Value.Type()) {
+		if !e.closedWorld(c.Value.Type()) && !e.exportedHomeIface(c.Value.Type()) {
 			for _, im := range e.implementers(c.Value.Type(), c.Method.Name()) {
 				if im.fn.Pkg != nil && e.homes[im.fn.Pkg.Pkg] {
 					fs := e.frameOfCached(im.fn)
@@ -878,7 +878,16 @@ func (e *Engine) ifaceKey(t types.Type, method string) string {
 
 // staticFieldKeys resolves a modifies path such as "w.rw.endWritten" against the parameter types.
 func (e *Engine) staticFieldKeys(f *ssa.Function, path string, keys map[string]Sort) bool {
-	parts := strings.Split(strings.TrimSpace(path), ".")
+	path = strings.TrimSpace(path)
+	if strings.HasPrefix(path, "owned(") {
+		keys[kBufOwned] = arrOf(SBool)
+		return true
+	}
+	if strings.HasPrefix(path, "blen(") {
+		keys[kBufLen] = arrOf(SInt)
+		return true
+	}
+	parts := strings.Split(path, ".")
 	if len(parts) < 2 {
 		return false
 	}
@@ -925,4 +934,9 @@ func (e *Engine) onlyRefImplementers(t types.Type) bool {
 	}
 	p := n.Obj().Pkg().Path()
 	return e.homes[n.Obj().Pkg()] || p == "io" || p == "net/http"
+}
+
+func (e *Engine) exportedHomeIface(t types.Type) bool {
+	n, ok := t.(*types.Named)
+	return ok && n.Obj().Pkg() != nil && e.homes[n.Obj().Pkg()] && n.Obj().Exported()
 }
